@@ -24,6 +24,12 @@ class GeluTanhFusion(pattern.RewriteRuleClassBase):
         result = op.Mul(x, t7)
         return result
 
+    def check(self, op, x) -> pattern.MatchResult:
+        check_result = pattern.MatchResult()
+        if x.shape is not None and x.shape.rank() == 0:
+            return check_result.fail("FastGelu requires an input of rank >= 1.", x)
+        return check_result
+
     def rewrite(self, op, x):
         return op.FastGelu(x, _domain="com.microsoft")
 
